@@ -305,7 +305,10 @@ Proof.
   intros Hp Hcg. unfold deliver, step_ok. destruct data as [|b d]; [cbn [fst snd]; split; [split; [auto|split; auto]|auto]|].
   set (data := b :: d). destruct (os_kind o).
   - destruct (os_off o); cbn [fst snd os_cgfail]; (split; [split; [apply pinv_set_fs; auto|split; auto]|auto]).
-  - set (s1 := match c_sink (e_spec E n) with Some t => set_fs s (fs_append (st_fs s) t data) | None => s end).
+  - destruct (c_drain (e_spec E n)).
+    2:{ cbn [fst snd os_cgfail]. unfold sfull.
+        destruct (is_synced E s n); cbn [st_sink st_outs set_unmod]; (split; [split; [auto using pinv_set_unmod|split; auto]|auto]). }
+    set (s1 := match c_sink (e_spec E n) with Some t => set_fs s (fs_append (st_fs s) t data) | None => s end).
     assert (Hp1 : pinv s1) by (subst s1; destruct (c_sink _); auto using pinv_set_fs).
     assert (Hs1 : st_sink s1 = st_sink s /\ st_outs s1 = st_outs s) by (subst s1; destruct (c_sink _); auto).
     destruct Hs1 as (Hs1 & Ho1).
@@ -343,12 +346,19 @@ Proof.
   destruct Hp as (_ & _ & Hc). unfold sfull. eauto.
 Qed.
 
+Lemma if_print_errorf_pinv (b : bool) s : pinv s -> pinv (if b then print_errorf E s else s) /\ (sfull s -> sfull (if b then print_errorf E s else s)).
+Proof.
+  intros Hp. destruct b; auto. destruct (flush_stdout_pinv s Hp) as ((A & B & _) & _). auto.
+Qed.
+
 Lemma flush_named_pinv s n o : pinv s -> alookup n (st_outs s) = Some o ->
   pinv (flush_named E s n o) /\ (sfull s -> sfull (flush_named E s n o)).
 Proof.
   intros Hp Hl. unfold flush_named.
   destruct (flush_ostream_pinv s n o Hp (pinv_lookup _ _ _ Hp Hl)) as (A & B).
-  destruct (flush_ostream E s n o) as [s1 o1]. cbn [fst snd] in *. eapply pinv_put; eauto.
+  destruct (flush_ostream E s n o) as [s1 o1]. cbn [fst snd] in *. cbv zeta.
+  destruct (pinv_put s s1 n o1 Hp A B) as (C & D).
+  destruct (if_print_errorf_pinv (os_err o1) _ C) as (F & G). split; auto.
 Qed.
 
 Lemma flush_streams_pinv ns : forall s, pinv s -> pinv (flush_streams E s ns) /\ (sfull s -> sfull (flush_streams E s ns)).
@@ -358,10 +368,6 @@ Proof.
   destruct (flush_named_pinv s n o Hp El) as (A & B). destruct (IH _ A) as (C & D). auto.
 Qed.
 
-Lemma if_print_errorf_pinv (b : bool) s : pinv s -> pinv (if b then print_errorf E s else s) /\ (sfull s -> sfull (if b then print_errorf E s else s)).
-Proof.
-  intros Hp. destruct b; auto. destruct (flush_stdout_pinv s Hp) as ((A & B & _) & _). auto.
-Qed.
 
 Lemma flush_all_pinv s : pinv s -> pinv (fst (flush_all E s)) /\ (sfull s -> sfull (fst (flush_all E s))).
 Proof.
@@ -454,9 +460,22 @@ Proof.
   repeat apply pinv_add_obs. apply pinv_set_ins. auto.
 Qed.
 
+Lemma pinv_add_synced s n : pinv s -> pinv (add_synced s n).
+Proof. apply pinv_frame; auto. Qed.
+
+Lemma getline_file_pinv s n : pinv s -> pinv (fst (getline_file E s n)).
+Proof.
+  intros Hp0. unfold getline_file. set (s0 := if sink_busy E s n then set_unmod s else s).
+  assert (Hp : pinv s0) by (subst s0; apply if_unmod_pinv; auto). clearbody s0.
+  destruct (amem n (st_outs s0)); cbn [fst]; auto.
+  destruct (alookup n (st_ins s0)) as [i|]; cbn [fst]; [apply scan_stream_pinv; auto|].
+  destruct (alookup n (st_fs s0)); cbn [fst]; [|apply pinv_add_obs; auto].
+  apply scan_stream_pinv. apply pinv_set_ins. auto.
+Qed.
+
 Lemma step_pinv s o : pinv s -> pinv (fst (step E s o)).
 Proof.
-  intros Hp. destruct o as [d ps|n|[n|]|c|n|c| |code|]; cbn [step].
+  intros Hp. destruct o as [d ps|n|[n|]|c|n|c| |code| |n]; cbn [step].
   - pose proof (get_output_stream_pinv s d Hp) as Hp1. destruct (get_output_stream E s d) as [s1 [[|n]|]]; cbn [fst] in *; auto.
     + pose proof (write_stdout_pinv s1 ps Hp1) as (A & _). destruct (write_stdout E s1 ps) as [s2 [|]]; auto.
     + destruct (alookup n (st_outs s1)) as [os|] eqn:El; cbn [fst]; auto.
@@ -485,10 +504,7 @@ Proof.
     destruct (child_eof_pinv s3 (negb ok3) Hp3) as ((Hp4 & _ & _) & _); [destruct ok3; [discriminate|auto]|].
     destruct (child_eof E s3 _) as [s4 ok4]. cbn [fst] in *. destruct (wait_result _ _) as [code err]. cbn [fst].
     apply pinv_add_obs. apply if_print_errorf_pinv; auto.
-  - destruct (amem n (st_outs s)); cbn [fst]; auto.
-    destruct (alookup n (st_ins s)) as [i|]; cbn [fst]; [apply scan_stream_pinv; auto|].
-    destruct (alookup n (st_fs s)); cbn [fst]; [|apply pinv_add_obs; auto].
-    apply scan_stream_pinv. apply pinv_set_ins. auto.
+  - apply getline_file_pinv; auto.
   - destruct (amem c (st_outs s)); cbn [fst]; auto.
     destruct (alookup c (st_ins s)) as [i|]; cbn [fst]; [apply scan_stream_pinv; auto|].
     destruct (flush_out_err_pinv s Hp) as (Hp1 & _).
@@ -497,6 +513,9 @@ Proof.
   - cbn [fst]. apply pinv_add_obs. apply flush_out_err_pinv; auto.
   - auto.
   - auto.
+  - destruct (amem n (st_outs s)); cbn [fst]; auto.
+    destruct (negb (amem n (st_ins s)) && negb (amem n (st_fs s))); cbn [fst]; [apply pinv_set_unmod; auto|].
+    apply getline_file_pinv. apply pinv_add_synced; auto.
 Qed.
 
 Lemma exec_pinv ops : forall s, pinv s -> pinv (fst (exec E s ops)).
